@@ -522,7 +522,7 @@ func (vc *VC) appendPrefixLemma(pre, post *State, elem types.Type, s, res string
 		b := fmt.Sprintf("(select %s %s)", vc.memAtByName(pre, c.mem), vc.pathPtr(e.elemPtr(s, "j"), c.path))
 		eqs = append(eqs, fmt.Sprintf("(= %s %s)", a, b))
 	}
-	vc.emit(fmt.Sprintf("(assert (forall ((j Int)) (! (=> (and (<= 0 j) (< j %s)) %s) :pattern (%s) :pattern (%s))))", sLen(s), and(eqs...), e.elemPtr(res, "j"), e.elemPtr(s, "j")))
+	vc.emit(fmt.Sprintf("(assert (forall ((j Int)) (! (=> (and (<= 0 j) (< j %s)) %s) :pattern (%s))))", sLen(s), and(eqs...), e.elemPtr(res, "j")))
 }
 
 // ---- spec functions ----
